@@ -1,0 +1,326 @@
+//! Verification hooks, compiled only with the cargo feature `cached_verif`.
+//!
+//! Nothing in this module changes what the cache does. It offers:
+//! - schedule points (`point`) at which a registered thread can be parked by an external driver,
+//! - taps (`tap`) that record choices the cache makes which are not determined by its inputs
+//!   (iteration order of a `DashMap`, the heap's choice among equal elements, doorkeeper answers, the pool index),
+//! - bookkeeping of locks that are held across schedule points (`hold`/`unhold`).
+//!
+//! A thread that never registers passes through every point at the cost of one relaxed atomic load.
+use std::cell::Cell;
+use std::sync::atomic::{AtomicBool, AtomicU64, Ordering};
+use std::sync::{Condvar, Mutex, MutexGuard};
+use std::time::Duration;
+
+static CONTROLLED: AtomicBool = AtomicBool::new(false);
+static TAPS_ON: AtomicBool = AtomicBool::new(false);
+static EPOCH: AtomicU64 = AtomicU64::new(1);
+
+thread_local! {
+    static ME: Cell<(u64, usize)> = Cell::new((0, 0));
+}
+
+/// State of one registered thread, as seen by the driver.
+#[derive(Clone, Debug)]
+pub struct ThreadView {
+    pub role: String,
+    pub parked_at: Option<&'static str>,
+    pub need: Option<String>,
+    pub park_seq: u64,
+    pub finished: bool,
+    pub panicked: bool,
+}
+
+struct ThreadRec {
+    view: ThreadView,
+    granted: bool,
+    stop_all: bool,
+    stops: Vec<&'static str>,
+}
+
+struct Ctl {
+    threads: Vec<ThreadRec>,
+    taps: Vec<String>,
+    holds: Vec<(String, String)>,
+    default_stop_all: bool,
+    default_stops: Vec<(String, Vec<&'static str>)>,
+}
+
+static CTL: Mutex<Ctl> = Mutex::new(Ctl { threads: Vec::new(), taps: Vec::new(), holds: Vec::new(), default_stop_all: false, default_stops: Vec::new() });
+static CV: Condvar = Condvar::new();
+
+fn ctl() -> MutexGuard<'static, Ctl> {
+    match CTL.lock() {
+        Ok(guard) => guard,
+        Err(poisoned) => poisoned.into_inner(),
+    }
+}
+
+fn me() -> Option<usize> {
+    let (epoch, index) = ME.with(|me| me.get());
+    if epoch == EPOCH.load(Ordering::Acquire) { Some(index) } else { None }
+}
+
+/// Marks the registered thread as finished when dropped (also while unwinding).
+pub struct Registration {
+    epoch: u64,
+    index: usize,
+}
+
+impl Drop for Registration {
+    fn drop(&mut self) {
+        if self.epoch != EPOCH.load(Ordering::Acquire) { return; }
+        let mut guard = ctl();
+        if let Some(record) = guard.threads.get_mut(self.index) {
+            record.view.finished = true;
+            record.view.parked_at = None;
+            record.view.panicked = std::thread::panicking();
+        }
+        let role = guard.threads.get(self.index).map(|record| record.view.role.clone());
+        if let Some(role) = role {
+            guard.holds.retain(|(_, owner)| owner != &role);
+        }
+        drop(guard);
+        CV.notify_all();
+    }
+}
+
+/// Registers the calling thread under `role`. Background threads of the cache call this first thing.
+pub fn register(role: &str) -> Registration {
+    let epoch = EPOCH.load(Ordering::Acquire);
+    let mut guard = ctl();
+    let stop_all = guard.default_stop_all;
+    let stops = guard.default_stops.iter().find(|(r, _)| r == role).map(|(_, s)| s.clone()).unwrap_or_default();
+    guard.threads.push(ThreadRec {
+        view: ThreadView { role: role.to_string(), parked_at: None, need: None, park_seq: 0, finished: false, panicked: false },
+        granted: false,
+        stop_all,
+        stops,
+    });
+    let index = guard.threads.len() - 1;
+    ME.with(|me| me.set((epoch, index)));
+    drop(guard);
+    CV.notify_all();
+    Registration { epoch, index }
+}
+
+/// A schedule point: in controlled mode a registered thread parks here until the driver grants it.
+#[inline]
+pub fn point(name: &'static str) {
+    if !CONTROLLED.load(Ordering::Relaxed) { return; }
+    point_slow(name, None);
+}
+
+/// A schedule point before an action that needs `need` (a lock that may be held across points, or room in a queue).
+#[inline]
+pub fn point_need(name: &'static str, need: impl FnOnce() -> String) {
+    if !CONTROLLED.load(Ordering::Relaxed) { return; }
+    point_slow(name, Some(need()));
+}
+
+fn point_slow(name: &'static str, need: Option<String>) {
+    let index = match me() { Some(index) => index, None => return };
+    let mut guard = ctl();
+    {
+        let record = &mut guard.threads[index];
+        if !(record.stop_all || record.stops.iter().any(|stop| *stop == name)) { return; }
+        record.view.parked_at = Some(name);
+        record.view.need = need;
+        record.view.park_seq += 1;
+        record.granted = false;
+    }
+    CV.notify_all();
+    loop {
+        if !CONTROLLED.load(Ordering::Relaxed) { break; }
+        if me().is_none() { return; }
+        if guard.threads.get(index).map(|record| record.granted).unwrap_or(true) { break; }
+        guard = match CV.wait(guard) { Ok(guard) => guard, Err(poisoned) => poisoned.into_inner() };
+    }
+    if me().is_none() { return; }
+    if let Some(record) = guard.threads.get_mut(index) {
+        record.view.parked_at = None;
+        record.granted = false;
+    }
+    drop(guard);
+    CV.notify_all();
+}
+
+/// Records a choice made by the cache that its inputs do not determine.
+#[inline]
+pub fn tap(make: impl FnOnce() -> String) {
+    if !TAPS_ON.load(Ordering::Relaxed) { return; }
+    let line = make();
+    ctl().taps.push(line);
+}
+
+/// Records that the calling (registered) thread now owns `lock` across schedule points.
+pub fn hold(lock: impl FnOnce() -> String) {
+    if !CONTROLLED.load(Ordering::Relaxed) { return; }
+    if let Some(index) = me() {
+        let name = lock();
+        let mut guard = ctl();
+        let role = guard.threads[index].view.role.clone();
+        guard.holds.push((name, role));
+    }
+}
+
+/// Reverse of `hold`.
+pub fn unhold(lock: impl FnOnce() -> String) {
+    if !CONTROLLED.load(Ordering::Relaxed) { return; }
+    if let Some(index) = me() {
+        let name = lock();
+        let mut guard = ctl();
+        let role = guard.threads[index].view.role.clone();
+        if let Some(position) = guard.holds.iter().position(|(lock, owner)| lock == &name && owner == &role) {
+            guard.holds.remove(position);
+        }
+    }
+}
+
+// ---- driver side ----
+
+/// Starts a fresh session: forgets all threads of earlier sessions, clears taps and holds.
+pub fn reset(controlled: bool, taps: bool) {
+    let mut guard = ctl();
+    EPOCH.fetch_add(1, Ordering::AcqRel);
+    guard.threads.clear();
+    guard.taps.clear();
+    guard.holds.clear();
+    guard.default_stop_all = false;
+    guard.default_stops.clear();
+    CONTROLLED.store(controlled, Ordering::Release);
+    TAPS_ON.store(taps, Ordering::Release);
+    drop(guard);
+    CV.notify_all();
+}
+
+/// Leaves controlled mode: every parked thread continues and no thread parks any more.
+pub fn release_all() {
+    let guard = ctl();
+    CONTROLLED.store(false, Ordering::Release);
+    drop(guard);
+    CV.notify_all();
+}
+
+/// Points at which threads registering later under `role` park (in addition to `set_default_stop_all`).
+pub fn set_default_stops(role: &str, stops: &[&'static str]) {
+    let mut guard = ctl();
+    guard.default_stops.retain(|(r, _)| r != role);
+    guard.default_stops.push((role.to_string(), stops.to_vec()));
+}
+
+pub fn set_default_stop_all(stop_all: bool) {
+    ctl().default_stop_all = stop_all;
+}
+
+/// Points at which the already registered thread `role` parks from now on.
+pub fn set_stops(role: &str, stop_all: bool, stops: &[&'static str]) {
+    let mut guard = ctl();
+    for record in guard.threads.iter_mut().filter(|record| record.view.role == role) {
+        record.stop_all = stop_all;
+        record.stops = stops.to_vec();
+    }
+}
+
+pub fn view(role: &str) -> Option<ThreadView> {
+    ctl().threads.iter().rev().find(|record| record.view.role == role).map(|record| record.view.clone())
+}
+
+pub fn views() -> Vec<ThreadView> {
+    ctl().threads.iter().map(|record| record.view.clone()).collect()
+}
+
+/// Waits until `role` is registered and either parked (with a park sequence greater than `after_seq`) or finished.
+pub fn wait_settled(role: &str, after_seq: u64, timeout: Duration) -> Option<ThreadView> {
+    let deadline = std::time::Instant::now() + timeout;
+    let mut guard = ctl();
+    loop {
+        if let Some(record) = guard.threads.iter().rev().find(|record| record.view.role == role) {
+            let settled = record.view.finished || (record.view.parked_at.is_some() && record.view.park_seq > after_seq);
+            if settled { return Some(record.view.clone()); }
+        }
+        let now = std::time::Instant::now();
+        if now >= deadline { return None; }
+        guard = match CV.wait_timeout(guard, deadline - now) { Ok((guard, _)) => guard, Err(poisoned) => poisoned.into_inner().0 };
+    }
+}
+
+/// Lets the parked thread `role` continue to its next point. Returns the park sequence it was granted at.
+pub fn grant(role: &str) -> Option<u64> {
+    let mut guard = ctl();
+    let mut granted_at = None;
+    if let Some(record) = guard.threads.iter_mut().rev().find(|record| record.view.role == role) {
+        if record.view.parked_at.is_some() && !record.view.finished {
+            record.granted = true;
+            granted_at = Some(record.view.park_seq);
+        }
+    }
+    drop(guard);
+    CV.notify_all();
+    granted_at
+}
+
+pub fn drain_taps() -> Vec<String> {
+    std::mem::take(&mut ctl().taps)
+}
+
+pub fn holds() -> Vec<(String, String)> {
+    ctl().holds.clone()
+}
+
+// ---- wrappers over crate-private parts, for differential checks of one component at a time ----
+
+pub use crate::cache::cached::VerifSnapshot;
+pub use crate::cache::lfu::frequency_counter::{verif_next_power_2, VerifFrequencyCounter, VerifRow};
+pub use crate::cache::lfu::tiny_lfu::{VerifSketch, VerifTinyLFU};
+pub use crate::cache::policy::cache_weight::verif_sampled_key_cmp;
+pub use crate::cache::stats::verif_hit_ratio;
+pub use crate::cache::store::verif_type_of_expiry_update;
+
+use std::sync::Arc;
+use crate::cache::command::CommandStatus;
+use crate::cache::key_description::KeyDescription;
+use crate::cache::policy::admission_policy::AdmissionPolicy;
+use crate::cache::policy::config::CacheWeightConfig;
+use crate::cache::stats::ConcurrentStatsCounter;
+use crate::cache::types::{KeyHash, Weight};
+
+/// A bare admission policy over `u64` keys (key = key id), without store, worker or sweeper.
+pub struct VerifAdmission {
+    policy: AdmissionPolicy<u64>,
+    evicted: Arc<Mutex<Vec<u64>>>,
+}
+
+impl VerifAdmission {
+    pub fn new(counters: u64, shards: usize, max_weight: Weight) -> Self {
+        VerifAdmission {
+            policy: AdmissionPolicy::new(counters, CacheWeightConfig::new(16, shards, max_weight), Arc::new(ConcurrentStatsCounter::new())),
+            evicted: Arc::new(Mutex::new(Vec::new())),
+        }
+    }
+
+    /// Runs the real `maybe_add`; returns the status and the keys handed to the delete hook, in order.
+    pub fn maybe_add(&self, id: u64, hash: KeyHash, weight: Weight) -> (CommandStatus, Vec<u64>) {
+        let evicted = self.evicted.clone();
+        let delete_hook = move |key: u64| { evicted.lock().unwrap().push(key); };
+        let status = self.policy.maybe_add(&KeyDescription::new(id, id, hash, weight), &delete_hook);
+        (status, std::mem::take(&mut *self.evicted.lock().unwrap()))
+    }
+
+    pub fn update(&self, id: u64, weight: Weight) { self.policy.update(&id, weight) }
+
+    pub fn delete(&self, id: u64) { self.policy.delete(&id) }
+
+    pub fn record_access(&self, key_hashes: Vec<KeyHash>) { self.policy.verif_record_access(key_hashes) }
+
+    pub fn estimate(&self, hash: KeyHash) -> u8 { self.policy.estimate(hash) }
+
+    pub fn weight_used(&self) -> Weight { self.policy.verif_weight_used() }
+
+    /// (key id, key hash, weight), unordered.
+    pub fn key_weights(&self) -> Vec<(u64, KeyHash, Weight)> {
+        self.policy.verif_key_weights().into_iter().map(|(id, _, hash, weight)| (id, hash, weight)).collect()
+    }
+
+    pub fn sketch(&self) -> VerifSketch { self.policy.verif_sketch() }
+}
